@@ -190,7 +190,7 @@ func (w *sworld) finalChecks(final []int) {
 		want    []int
 		overlap bool
 	}
-	var ff *foldFail
+	var ff, xf *foldFail
 	for _, sub := range w.subs {
 		if sub.subRet == 0 {
 			continue
@@ -256,11 +256,13 @@ func (w *sworld) finalChecks(final []int) {
 				s.Fail("final", "last-update-not-delivered", "%s (%s): still subscribed, but its log %s does not end with the last update; %s", sub.name, sub.kind, fmtSCbs(sub.cbs), w.fmtChanges())
 			}
 		}
-		// folding (library's own Apply: adds, then deletes) must reproduce the contents after every delivered update
+		// folding (library's own Apply: adds, then deletes) must reproduce the contents after every delivered update,
+		// and every reported element must be an actual change of the folded view (exactly once: no element reported
+		// as added while present, or as deleted while absent)
 		if ff == nil {
 			fold, alt := ds.NewSet[int](), ds.NewSet[int]()
 			for _, e := range sub.cbs {
-				fold.Apply(ds.NewSetMutations(e.add...).WithDeletedElements(ds.NewSet(e.del...)))
+				applied := fold.Apply(ds.NewSetMutations(e.add...).WithDeletedElements(ds.NewSet(e.del...)))
 				// alternative reading (deletes, then adds) - used only to attribute a mismatch
 				alt.DeleteAll(ds.NewSet(e.del...))
 				alt.AddAll(ds.NewSet(e.add...))
@@ -268,24 +270,38 @@ func (w *sworld) finalChecks(final []int) {
 				if !e.initial {
 					want = e.wr.state
 				}
-				if got := sortedInts(fold.ToSlice()); !eqInts(got, want) {
+				got := sortedInts(fold.ToSlice())
+				if !eqInts(got, want) {
 					ff = &foldFail{sub: sub, e: e, got: got, want: want, overlap: intersects(e.add, e.del) && eqInts(sortedInts(alt.ToSlice()), want)}
 					break
 				}
+				if aa, ad := mutSlices(applied); xf == nil && (!eqInts(aa, e.add) || !eqInts(ad, e.del)) {
+					xf = &foldFail{sub: sub, e: e, got: got, want: aa, overlap: !eqInts(aa, e.add)}
+				}
 			}
 		}
+	}
+	desc := func(f *foldFail) string {
+		if f.e.wr != nil {
+			return f.e.wr.desc
+		}
+		return "initial"
 	}
 	if ff != nil {
 		sig := "contents-mismatch"
 		if ff.overlap {
 			sig += ":elements-reported-both-added-and-deleted"
 		}
-		desc := "initial"
-		if ff.e.wr != nil {
-			desc = ff.e.wr.desc
-		}
 		s.Fail("fold", sig, "%s (%s): folding the reported mutations up to +%v -%v (%s) gives %v, the set contained %v; log %s; %s",
-			ff.sub.name, ff.sub.kind, ff.e.add, ff.e.del, desc, ff.got, ff.want, fmtSCbs(ff.sub.cbs), w.fmtChanges())
+			ff.sub.name, ff.sub.kind, ff.e.add, ff.e.del, desc(ff), ff.got, ff.want, fmtSCbs(ff.sub.cbs), w.fmtChanges())
+	}
+	if xf != nil {
+		sig := "absent-element-reported-as-deleted"
+		if xf.overlap {
+			sig = "present-element-reported-as-added"
+		}
+		s.Fail("exactly-once", sig, "%s (%s): callback +%v -%v (%s) reports a change that did not happen (elements it had already reported as added, or never reported); log %s; %s",
+			xf.sub.name, xf.sub.kind, xf.e.add, xf.e.del, desc(xf), fmtSCbs(xf.sub.cbs), w.fmtChanges())
 	}
 }
 
